@@ -244,6 +244,15 @@ func Consensus(f io.Reader) (FastaRecord, error) {
 	return consensus, err
 }
 
+// idFromDescription returns the sequence ID (the first whitespace-delimited token) of a fasta header line
+func idFromDescription(description string) (string, error) {
+	fields := strings.Fields(description)
+	if len(fields) == 0 {
+		return "", errors.New("badly formatted fasta file: header line without a sequence ID")
+	}
+	return fields[0], nil
+}
+
 // ReadAlignment reads an alignment in fasta format to a channel of FastaRecord structs
 func ReadAlignment(f io.Reader, chnl chan FastaRecord, cErr chan error, cdone chan bool) {
 
@@ -271,9 +280,17 @@ func ReadAlignment(f io.Reader, chnl chan FastaRecord, cErr chan error, cdone ch
 			}
 
 			description = line[1:]
-			id = strings.Fields(description)[0]
+			id, err = idFromDescription(description)
+			if err != nil {
+				cErr <- err
+				return
+			}
 
 			first = false
+
+		} else if len(line) == 0 {
+			// skip blank lines
+			continue
 
 		} else if string(line[0]) == ">" {
 
@@ -289,7 +306,11 @@ func ReadAlignment(f io.Reader, chnl chan FastaRecord, cErr chan error, cdone ch
 			counter++
 
 			description = line[1:]
-			id = strings.Fields(description)[0]
+			id, err = idFromDescription(description)
+			if err != nil {
+				cErr <- err
+				return
+			}
 			seqBuffer = ""
 
 		} else {
@@ -363,9 +384,17 @@ func ReadEncodeAlignment(f io.Reader, hardGaps bool, chnl chan EncodedFastaRecor
 			}
 
 			description = string(line[1:])
-			id = strings.Fields(description)[0]
+			id, err = idFromDescription(description)
+			if err != nil {
+				cErr <- err
+				return
+			}
 
 			first = false
+
+		} else if len(line) == 0 {
+			// skip blank lines
+			continue
 
 		} else if line[0] == '>' {
 
@@ -381,7 +410,11 @@ func ReadEncodeAlignment(f io.Reader, hardGaps bool, chnl chan EncodedFastaRecor
 			counter++
 
 			description = string(line[1:])
-			id = strings.Fields(description)[0]
+			id, err = idFromDescription(description)
+			if err != nil {
+				cErr <- err
+				return
+			}
 			seqBuffer = make([]byte, 0)
 
 		} else {
@@ -468,9 +501,17 @@ func ReadEncodeScoreAlignment(f io.Reader, hardGaps bool, chnl chan EncodedFasta
 			}
 
 			description = string(line[1:])
-			id = strings.Fields(description)[0]
+			id, err = idFromDescription(description)
+			if err != nil {
+				cErr <- err
+				return
+			}
 
 			first = false
+
+		} else if len(line) == 0 {
+			// skip blank lines
+			continue
 
 		} else if line[0] == '>' {
 
@@ -490,7 +531,11 @@ func ReadEncodeScoreAlignment(f io.Reader, hardGaps bool, chnl chan EncodedFasta
 			counter++
 
 			description = string(line[1:])
-			id = strings.Fields(description)[0]
+			id, err = idFromDescription(description)
+			if err != nil {
+				cErr <- err
+				return
+			}
 			seqBuffer = make([]byte, 0)
 			score = 0
 			for i := range counting {
@@ -581,9 +626,16 @@ func ReadEncodeAlignmentToList(f io.Reader, hardGaps bool) ([]EncodedFastaRecord
 			}
 
 			description = string(line[1:])
-			id = strings.Fields(description)[0]
+			id, err = idFromDescription(description)
+			if err != nil {
+				return []EncodedFastaRecord{}, err
+			}
 
 			first = false
+
+		} else if len(line) == 0 {
+			// skip blank lines
+			continue
 
 		} else if line[0] == '>' {
 
@@ -598,7 +650,10 @@ func ReadEncodeAlignmentToList(f io.Reader, hardGaps bool) ([]EncodedFastaRecord
 			counter++
 
 			description = string(line[1:])
-			id = strings.Fields(description)[0]
+			id, err = idFromDescription(description)
+			if err != nil {
+				return []EncodedFastaRecord{}, err
+			}
 			seqBuffer = make([]byte, 0)
 
 		} else {
